@@ -1,15 +1,16 @@
 #!/bin/sh
-# run every check against every stored seeded change; writes /verif/seeded/RESULTS.tsv
+# run every check against every stored seeded change (one application of the patch per seed);
+# writes /verif/seeded/RESULTS.tsv: seed, property, exit code of the property's own check,
+# rules of that check that reported, other checks that reported
 cd /verif
 out=seeded/RESULTS.tsv
-echo "seed\tproperty\tcaught_by" > $out
+printf "seed\tproperty\town_check_exit\town_rules_reporting\tother_checks_reporting\n" > $out
 for d in seeded/C*-*/; do
   s=$(basename $d); pid=${s%-*}
-  res=$(tools/seed_checks.sh $d/patch.diff 2>&1 | awk '/^== /{p=$2; rc=$3} /^VIOLATION/{print p}' | sort -u | tr '\n' ' ')
-  anal=$(tools/seed_checks.sh $d/patch.diff $pid 2>&1 | grep -c "^ANALYSIS-ERROR")
-  [ -n "$res" ] || res="-"
-  [ "$anal" = "0" ] || res="$res (analysis-error on $pid)"
-  rules=$(tools/seed_checks.sh $d/patch.diff $pid 2>&1 | grep -E "^C[0-9]+-R[0-9]+ " | grep -v "nested-inside-protected" | awk '{print $1" "$2}' | sort -u | tr '\n' ';')
-  echo "$s\t$pid\t$res\t$rules" >> $out
+  log=$(tools/seed_checks.sh $d/patch.diff 2>&1)
+  own=$(echo "$log" | awk -v p=$pid '/^== /{cur=$2; if(cur==p){split($3,a,"="); print a[2]}}')
+  rules=$(echo "$log" | awk -v p=$pid '/^== /{cur=$2} cur==p && /^C[0-9]+-R[0-9]+ /{print $1}' | sort -u | tr '\n' ' ')
+  others=$(echo "$log" | awk -v p=$pid '/^== /{cur=$2} cur!=p && /^VIOLATION/{print cur}' | sort -u | tr '\n' ' ')
+  printf "%s\t%s\t%s\t%s\t%s\n" "$s" "$pid" "$own" "${rules:--}" "${others:--}" >> $out
 done
 cat $out
